@@ -62,15 +62,18 @@ def explore(ctx):
     from fontTools.varLib import instancer
     from fontTools.ttLib import TTFont
     rng = ctx.subrng("vf")
-    for i in range(ctx.budget(10, 70)):
+    for i in range(ctx.budget(14, 84)):
         lib = ["ufoLib2", "defcon"][i % 2]
         two_axes = (i % 5 == 4)
         base = add_marks(dsgen.base_master(rng, anchors=True, max_depth=1,
                                            classes=["identity", "shear", "general_small"]))
-        n = 4 if two_axes else rng.choice([2, 3])
+        multi = (i % 6 == 5) and not two_axes      # several variable fonts in one designspace, one built from a subset of the sources
+        n = 4 if two_axes else (3 if multi else rng.choice([2, 3]))
         masters = [base] + [dsgen.perturb(rng, base, k, amount=40) for k in range(1, n)]
         names = [g["name"] for g in base["glyphs"]]
         vfeat = rng.random() < 0.5
+        if multi:
+            vfeat = (i // 6) % 2 == 0
         # class kerning: a class/class pair and a glyph/class exception, values differing per master
         groups = {"public.kern1.L": [names[0]], "public.kern2.R": [names[1], names[2]]}
         for k, m in enumerate(masters):
@@ -95,7 +98,18 @@ def explore(ctx):
             # merger needs every pair in the default master: "Base master not found" -- environment limit)
             masters[-1]["kerning"][(names[2], names[0])] = Fr(-33)
         # (merged layout needs structurally identical per-master GPOS: same pairs in every master)
-        if two_axes:
+        if multi:
+            from fontTools.designspaceLib import VariableFontDescriptor, RangeAxisSubsetDescriptor, ValueAxisSubsetDescriptor
+            axes = [("Weight", "wght", 100, 100, 900), ("Width", "wdth", 50, 100, 100)]
+            # source order Regular, Condensed, Bold: the weight-only font keeps sources 0 and 2 (not a prefix of the list)
+            locs = [{"Weight": 100, "Width": 100}, {"Weight": 100, "Width": 50}, {"Weight": 900, "Width": 100}]
+            ds, fonts = dsgen.make_designspace(rng, masters, lib, axes=axes, locations=locs, instances=False)
+            ds.formatVersion = "5.0"
+            ds.addVariableFont(VariableFontDescriptor(name="VFFull", axisSubsets=[RangeAxisSubsetDescriptor(name="Weight"),
+                                                                              RangeAxisSubsetDescriptor(name="Width")]))
+            ds.addVariableFont(VariableFontDescriptor(name="VFWght", axisSubsets=[RangeAxisSubsetDescriptor(name="Weight"),
+                                                                              ValueAxisSubsetDescriptor(name="Width", userValue=100)]))
+        elif two_axes:
             axes = [("Weight", "wght", 100, 100, 900), ("Width", "wdth", 50, 50, 100)]
             locs = [{"Weight": 100, "Width": 50}, {"Weight": 900, "Width": 50}, {"Weight": 100, "Width": 100}, {"Weight": 900, "Width": 100}]
             ds, fonts = dsgen.make_designspace(rng, masters, lib, axes=axes, locations=locs, instances=False)
@@ -103,11 +117,24 @@ def explore(ctx):
             ds, fonts = dsgen.make_designspace(rng, masters, lib, instances=False)
             locs = [dict(s.location) for s in ds.sources]
         fn = ["compileVariableTTF", "compileVariableCFF2"][(i // 2) % 2]
-        case = {"function": fn, "variableFeatures": vfeat, "lib": lib, "masters": n, "two_axes": two_axes, "font": jsonable(base)}
+        if multi:
+            fn += "s"
+        case = {"function": fn, "variableFeatures": vfeat, "lib": lib, "masters": n, "two_axes": two_axes, "font": jsonable(base),
+                "variable_fonts": ["VFFull: all sources", "VFWght: sources 0 and 2 (Width fixed at 100)"] if multi else None}
+        tagmap = {a.name: a.tag for a in ds.axes}
         try:
-            vf = getattr(ufo2ft, fn)(ds, variableFeatures=vfeat)
-            buf = io.BytesIO(); vf.save(buf)
-            if fn == "compileVariableTTF":
+            if multi:
+                vfs = getattr(ufo2ft, fn)(ds, variableFeatures=vfeat)
+                targets = []
+                for vname, keep in (("VFFull", [0, 1, 2]), ("VFWght", [0, 2])):
+                    b = io.BytesIO(); vfs[vname].save(b)
+                    axes_in = [a.axisTag for a in vfs[vname]["fvar"].axes]
+                    targets.append((vname, b.getvalue(), [(k, {tagmap[a]: v for a, v in locs[k].items() if tagmap[a] in axes_in}) for k in keep]))
+            else:
+                vf = getattr(ufo2ft, fn)(ds, variableFeatures=vfeat)
+                buf = io.BytesIO(); vf.save(buf)
+                targets = [("", buf.getvalue(), [(k, {tagmap[a]: v for a, v in loc.items()}) for k, loc in enumerate(locs)])]
+            if fn.startswith("compileVariableTTF"):
                 ref_ds = ufo2ft.compileInterpolatableTTFsFromDS(copy.deepcopy(ds) if False else ds)
             else:
                 ref_ds = ufo2ft.compileInterpolatableOTFsFromDS(ds)
@@ -120,14 +147,14 @@ def explore(ctx):
             ctx.spec_failure(dict(case, propagateAnchors_filter=propagate),
                              "%s raised %s: %s\n%s" % (fn, type(e).__name__, e, traceback.format_exc()[-1200:]), signature=sig)
             continue
-        tagmap = {a.name: a.tag for a in ds.axes}
-        for k, loc in enumerate(locs):
+        for vname, vbytes, k, loc in [(vn, vb, k, loc) for vn, vb, kl in targets for k, loc in kl]:
             ctx.count()
-            ctx.klass("%s/vfeat=%s%s%s" % (fn, vfeat, "/2axes" if two_axes else "", "/propagateAnchors" if propagate else ""))
-            ctx.nontriv((fn, i, k, ctx.scale))
-            c2 = dict(case, master=k, location=loc)
+            ctx.klass("%s/vfeat=%s%s%s%s" % (fn, vfeat, "/2axes" if two_axes else "", "/propagateAnchors" if propagate else "",
+                                             ("/" + vname) if vname else ""))
+            ctx.nontriv((fn, i, k, vname, ctx.scale))
+            c2 = dict(case, master=k, location=loc, variable_font=vname or None)
             try:
-                inst = instancer.instantiateVariableFont(TTFont(io.BytesIO(buf.getvalue())), {tagmap[a]: v for a, v in loc.items()})
+                inst = instancer.instantiateVariableFont(TTFont(io.BytesIO(vbytes)), dict(loc))
                 b2 = io.BytesIO(); inst.save(b2); inst = TTFont(io.BytesIO(b2.getvalue()))
             except Exception as e:
                 ctx.spec_failure(c2, "instantiating at the master location raised %s: %s" % (type(e).__name__, e))
